@@ -685,8 +685,19 @@ Fixpoint has_walrus (e : expr) : bool :=
    [l]: the lambda rewritten with the helper's own snapshot [hce]; any exception leaves the helper by name.
    (The recursion over helpers of helpers, and its guard against self-reference, is carried out by the caller
    that assembles the snapshot - the driver - one [helper_capval] step per helper.) *)
+(* `def ignore(x): return` : rewrite_func_as_lambda hands back a Lambda whose body is None, a raw value where a node
+   is required ([Raw], harness/bridge.py).  Rewriting it - visit_Lambda's self.visit(node.body) - raises
+   (AttributeError: NoneType has no _fields); safe_parse_wrapper's `except Exception` leaves the helper by name. *)
+Definition bare_return (l : expr) : bool :=
+  match l with
+  | Lambda _ (Raw _) => true
+  | Other cls _ [_; Raw _] => String.prefix "Lambda;" cls
+  | _ => false
+  end.
+
 Definition helper_capval (hce : cenv) (l : expr) : capval :=
   if has_walrus l then CFun None          (* F36: an assignment expression rebinds a name - the helper stays by name *)
+  else if bare_return l then CFun None    (* rewriting raises: any exception leaves the helper by name *)
   else
   match rewrite_captured hce l with
   | Ok l' => CFun (Some l')
